@@ -12,8 +12,8 @@ TB = ["correspondence harness harness/overlay/index/zz_verif_c04_test.go (genera
       "non-Meta atoms are nodes with a private fresh cursor in the model (their iterators are C01's subject); math.MaxUint32 modelled as ndocs",
       "cache key = xxhash of field:value assumed collision free; random eviction = arbitrary choice function (theorems quantify over it; "
       "the correspondence of the repaired code does not depend on it)",
-      "the concurrent half of the property is NOT proved: the model has no interleavings/data races; thorough tier runs a -race stress "
-      "test as supporting evidence only"]
+      "concurrency: only interleavings of whole loop iterations with atomic builds are modelled (theorems *_partial); data races are "
+      "not; thorough tier runs a -race stress test as supporting evidence only"]
 
 
 def run(ctx):
@@ -80,5 +80,5 @@ def run(ctx):
     if proofs.get("coqchk"):
         cov["coqchk"] = proofs["coqchk"]
     return vf.finish(ctx, "proof", proofs, cov, failures=failures, broken=broken,
-                     assumptions=["sequential histories only are covered by the theorems (concurrent half: partial, -race stress as evidence)",
+                     assumptions=["concurrent half partial: interleavings at loop-iteration granularity only; data races outside the model",
                                   "ndocs < 2^32; cache-key checksums do not collide"])
